@@ -8,11 +8,11 @@ Set Implicit Arguments.
 (* ------------------------------------------------------------------ Dependency.check preserves the invariant *)
 Lemma check_cases : forall W s j i,
   check W all_fixed s j i = s \/
-  exists d r' w, nth_error (deps W j) i = Some d /\ check_l true (jobs s j) i (dep_status s d) = (r', w) /\
+  exists d r' w, nth_error (deps W j) i = Some d /\ check_l true true (jobs s j) i (dep_status s d) = (r', w) /\
     check W all_fixed s j i = (if w then enqueue (setjob s j r') (CStep j) else setjob s j r').
 Proof.
   intros. unfold check. destruct (nth_error (deps W j) i) as [d|] eqn:N; auto.
-  right. simpl. destruct (check_l true (jobs s j) i (dep_status s d)) as [r' w] eqn:C.
+  right. simpl. destruct (check_l true true (jobs s j) i (dep_status s d)) as [r' w] eqn:C.
   exists d, r', w. auto.
 Qed.
 
@@ -91,7 +91,7 @@ Proof.
             nth_error (deps W j) i' = Some (DJob k) -> st (jobs s k) = DONE).
   { intros i' k _ X Y. eapply CO'; eauto. }
   assert (H8 : forall i', started (pc r') = true -> nth_error (cur r') i' = Some DFAIL ->
-            exists k, nth_error (deps W j) i' = Some (DJob k) /\ (st (jobs s k) = ERROR \/ adopted W k <> None)).
+            exists k, nth_error (deps W j) i' = Some (DJob k) /\ st (jobs s k) = ERROR).
   { intros i' _ X. rewrite Cc in X. rewrite nth_error_replace in X. destruct (Nat.eqb i i') eqn:Ei.
     + apply Nat.eqb_eq in Ei. subst i'. rewrite Hold in X. inversion X as [X'].
       destruct (NEWF X') as (k & -> & K). exists k. auto.
@@ -107,7 +107,7 @@ Proof.
         assert (Z0 : count_nok (cur r') = 0%nat) by (apply Nat2Z.inj; exact U0).
         assert (y = DOK) by (apply (@count_nok_zero (cur r') Z0 i' y Y2)). subst y. exact (CO' i' k Y2 Y1).
     + apply (I_RD I j k); auto. right. fold r. destruct PC as [X|(_&X)]; [rewrite <- X; exact IS|]. rewrite X in IS; discriminate. }
-  assert (H10 : fdep r' = true -> exists k, In (DJob k) (deps W j) /\ (st (jobs s k) = ERROR \/ adopted W k <> None)).
+  assert (H10 : fdep r' = true -> exists k, In (DJob k) (deps W j) /\ st (jobs s k) = ERROR).
   { intros FD. destruct Af2 as [X|(NF & X)].
     + apply (I_FD I j). fold r. congruence.
     + destruct (Eerr X) as [Y|Y]; [rewrite Y in NF; discriminate|].
@@ -126,7 +126,7 @@ Proof.
   assert (RET : forall r0, pc r = PReturned r0 -> pc r' = PReturned r0).
   { intros r0 X. destruct PC as [Y|(Y&_)]; congruence. }
   assert (LCH : launches r' = launches r \/ (true = false /\ launches r' = Datatypes.S (launches r) /\ pc r = PWoken ALockIn)) by (left; exact Al).
-  exact (@inv_update true W s s' j r' WF I Jn EJ LI H1 (fun HE => or_introl (H2 HE)) H3 H4 RET LCH H5 H6 H7 H8 H9 H10 H11 H12 H13 H14).
+  exact (@inv_update true W s s' j r' WF I Jn EJ LI H1 H2 H3 H4 RET LCH H5 H6 H7 H8 H9 H10 H11 H12 H13 H14).
 Qed.
 
 (* ------------------------------------------------------------------ steps that leave the jobs unchanged *)
@@ -172,7 +172,7 @@ Lemma inv_update_own : forall strict W s s' j r',
   jobs s' = upd (jobs s) j r' ->
   linv (deps W j) (j_marker (spec W j)) (j_code (spec W j)) (adopted W j) r' ->
   cur r' = cur (jobs s j) -> fdep r' = fdep (jobs s j) ->
-  (st (jobs s j) = DONE -> st r' = DONE) -> (st (jobs s j) = ERROR -> st r' = ERROR \/ is_adopt (pc (jobs s j)) = true) ->
+  (st (jobs s j) = DONE -> st r' = DONE) -> (st (jobs s j) = ERROR -> st r' = ERROR) ->
   started (pc r') = true ->
   (past_loop (pc (jobs s j)) = true -> past_loop (pc r') = true) ->
   (forall r0, pc (jobs s j) = PReturned r0 -> pc r' = PReturned r0) ->
@@ -228,7 +228,7 @@ Proof.
   { intros c Hc. apply in_app_or in Hc. destruct Hc as [X|[<-|[]]]; auto. right. simpl. auto. }
   assert (RET : forall r0, pc r = PReturned r0 -> pc r' = PReturned r0) by (intros r0 X; rewrite P in X; discriminate).
   assert (LCH : launches r' = launches r \/ (true = false /\ launches r' = Datatypes.S (launches r) /\ pc r = PWoken ALockIn)) by (left; reflexivity).
-  exact (@inv_update_own true W s s' j r' WF I S EJ L EC EF SD (fun HE => or_introl (SE HE)) SS SP RET LCH RD LD CNT FL Q).
+  exact (@inv_update_own true W s s' j r' WF I S EJ L EC EF SD SE SS SP RET LCH RD LD CNT FL Q).
 Qed.
 
 Lemma inv_lockoutrun : forall W s j, wf W = true -> Inv W s -> pc (jobs s j) = PWoken ALockOutRun ->
@@ -256,7 +256,7 @@ Proof.
   assert (Q : forall c, In c (queue s') -> In c (queue s) \/ cb_ok s' c) by (intros c Hc; auto).
   assert (RET : forall r0, pc r = PReturned r0 -> pc r' = PReturned r0) by (intros r0 X; rewrite P in X; discriminate).
   assert (LCH : launches r' = launches r \/ (true = false /\ launches r' = Datatypes.S (launches r) /\ pc r = PWoken ALockIn)) by (left; reflexivity).
-  exact (@inv_update_own true W s s' j r' WF I S EJ L EC EF SD (fun HE => or_introl (SE HE)) SS SP RET LCH RD LD CNT FL Q).
+  exact (@inv_update_own true W s s' j r' WF I S EJ L EC EF SD SE SS SP RET LCH RD LD CNT FL Q).
 Qed.
 
 (* facts about a job whose coroutine is outside aio_start and before the end of its loop *)
@@ -284,7 +284,7 @@ Lemma inv_commit_loop : forall W s j r2 p,
   linv (deps W j) (j_marker (spec W j)) (j_code (spec W j)) (adopted W j) (fst p) ->
   loop_shape r2 p ->
   cur r2 = cur (jobs s j) -> fdep r2 = fdep (jobs s j) -> launches r2 = launches (jobs s j) ->
-  (st (jobs s j) = DONE -> st r2 = DONE) -> (st (jobs s j) = ERROR -> st r2 = ERROR \/ is_adopt (pc (jobs s j)) = true) ->
+  (st (jobs s j) = DONE -> st r2 = DONE) -> (st (jobs s j) = ERROR -> st r2 = ERROR) ->
   (st r2 = READY -> st (jobs s j) = READY \/ in_start (pc (jobs s j)) = true) ->
   Inv W (commit s j p) /\ stab0 s (commit s j p).
 Proof.
@@ -294,7 +294,7 @@ Proof.
   assert (EC : cur r' = cur r) by congruence.
   assert (EF : fdep r' = fdep r) by congruence.
   assert (SD : st r = DONE -> st r' = DONE) by (intros; rewrite S_st; auto).
-  assert (SE : st r = ERROR -> st r' = ERROR \/ is_adopt (pc r) = true) by (intros HE; rewrite S_st; apply SE2; auto).
+  assert (SE : st r = ERROR -> st r' = ERROR) by (intros HE; rewrite S_st; apply SE2; auto).
   assert (SS : started (pc r') = true) by (destruct S_pc as [(X&_)|[(X&_)|(X&_)]]; rewrite X; auto).
   assert (SP : past_loop (pc r) = true -> past_loop (pc r') = true) by congruence.
   assert (RD : (st r' = READY \/ in_start (pc r') = true) -> (st r = READY \/ in_start (pc r) = true)).
@@ -355,7 +355,7 @@ Lemma inv_spawn : forall W s j, wf W = true -> Inv W s -> pc (jobs s j) = PSpawn
 Proof.
   intros W s j WF I P. unfold run_spawn. simpl fx3. rewrite <- adopted_some.
   set (r := jobs s j) in *. set (news := map (dep_status s) (deps W j)).
-  set (p := spawn_l true (j_marker (spec W j)) (is_some_b (adopted W j)) r news).
+  set (p := spawn_l true true (j_marker (spec W j)) (is_some_b (adopted W j)) r news).
   pose proof (I_loc I j) as L. unfold jl in L. fold r in L.
   assert (Len : length news = length (deps W j)) by (apply map_length).
   destruct (@spawn_l_ok (deps W j) (j_marker (spec W j)) (j_code (spec W j)) (adopted W j) r news L P Len) as (LI & C & ST & SND & RDY & HD & LA & DN & IST & FDP & CT & _). fold p in LI, C, ST, SND, RDY, HD, LA, DN, IST, FDP, CT.
@@ -378,14 +378,14 @@ Proof.
             nth_error (deps W j) i = Some (DJob k) -> st (jobs s k) = DONE).
   { intros i k _ X Y. rewrite C, (NTH _ _ Y) in X. inversion X. apply dep_status_ok; auto. }
   assert (CF : forall i, started (pc r') = true -> nth_error (cur r') i = Some DFAIL ->
-            exists k, nth_error (deps W j) i = Some (DJob k) /\ (st (jobs s k) = ERROR \/ adopted W k <> None)).
+            exists k, nth_error (deps W j) i = Some (DJob k) /\ st (jobs s k) = ERROR).
   { intros i _ X. rewrite C in X. unfold news in X. rewrite nth_error_map in X.
     destruct (nth_error (deps W j) i) as [d|] eqn:Y; simpl in X; [|discriminate]. inversion X as [X'].
     destruct (dep_status_fail _ _ X') as (k & -> & K). exists k; auto. }
   assert (RD : (st r' = READY \/ in_start (pc r') = true) -> forall k, In (DJob k) (deps W j) -> st (jobs s k) = DONE).
   { intros X k Hk. assert (R : st r' = READY) by (destruct X; auto).
     apply In_nth_error in Hk. destruct Hk as (i & Hi). apply dep_status_ok. eapply RDY; eauto. }
-  assert (FD : fdep r' = true -> exists k, In (DJob k) (deps W j) /\ (st (jobs s k) = ERROR \/ adopted W k <> None)).
+  assert (FD : fdep r' = true -> exists k, In (DJob k) (deps W j) /\ st (jobs s k) = ERROR).
   { intros X. destruct (FDP X) as (i & Hi). unfold news in Hi. rewrite nth_error_map in Hi.
     destruct (nth_error (deps W j) i) as [d|] eqn:Y; simpl in Hi; [|discriminate]. inversion Hi as [X'].
     destruct (dep_status_fail _ _ X') as (k & -> & K). exists k. split; auto. eapply nth_error_In; eauto. }
@@ -405,7 +405,7 @@ Proof.
   { intros c Hc. left. unfold s', commit in Hc. destruct (snd p); simpl in Hc; auto. }
   assert (RET : forall r0, pc r = PReturned r0 -> pc r' = PReturned r0) by (intros r0 X; rewrite P in X; discriminate).
   assert (LCH : launches r' = launches r \/ (true = false /\ launches r' = Datatypes.S (launches r) /\ pc r = PWoken ALockIn)) by (left; congruence).
-  exact (@inv_update true W s s' j r' WF I Jn EJ LI SD (fun HE => or_introl (SE HE)) SS SP RET LCH SW SUB CO CF RD FD LD CNT FL Q).
+  exact (@inv_update true W s s' j r' WF I Jn EJ LI SD SE SS SP RET LCH SW SUB CO CF RD FD LD CNT FL Q).
 Qed.
 
 Lemma release_all_jobs : forall W s j, jobs (release_all W s j) = upd (jobs s) j (w_held (jobs s j) []).
@@ -438,7 +438,7 @@ Proof.
     unfold upd. destruct (Nat.eqb (fst q) j) eqn:E; auto; apply Nat.eqb_eq in E; rewrite E in X; exact X. }
   assert (RET : forall r0, pc r = PReturned r0 -> pc r' = PReturned r0) by (auto).
   assert (LCH : launches r' = launches r \/ (true = false /\ launches r' = Datatypes.S (launches r) /\ pc r = PWoken ALockIn)) by (left; reflexivity).
-  exact (@inv_update_own true W s s' j r' WF I S EJ L EC EF SD (fun HE => or_introl (SE HE)) SS SP RET LCH RD LD CNT FL Q).
+  exact (@inv_update_own true W s s' j r' WF I S EJ L EC EF SD SE SS SP RET LCH RD LD CNT FL Q).
 Qed.
 
 Lemma inv_abort_return : forall W s j, wf W = true -> Inv W s -> pc (jobs s j) = PWoken ALockOutAbort ->
@@ -511,7 +511,7 @@ Proof.
   - rewrite P; auto.
   - rewrite AD. exact LI.
   - intros D. pose proof (l_D L D) as X. rewrite P in X. discriminate.
-  - intros _. right. rewrite P. reflexivity.
+  - intros E. rewrite (l_adst L) in E; [discriminate|rewrite P; reflexivity].
   - simpl. intros X. rewrite X in FV. discriminate.
 Qed.
 
@@ -550,7 +550,7 @@ Proof.
       rewrite JS in X. simpl in X. change (started (pc (jobs s' (fst q))) = true). rewrite EJ. unfold upd. destruct (Nat.eqb (fst q) j); auto. }
   assert (RET : forall r0, pc r = PReturned r0 -> pc r' = PReturned r0) by (intros r0 X; rewrite P in X; discriminate).
   assert (LCH : launches r' = launches r \/ (true = false /\ launches r' = Datatypes.S (launches r) /\ pc r = PWoken ALockIn)) by (left; reflexivity).
-  exact (@inv_update_own true W s s' j r' WF I S EJ L EC EF SD (fun HE => or_introl (SE HE)) SS SP RET LCH RD LD CNT FL Q).
+  exact (@inv_update_own true W s s' j r' WF I S EJ L EC EF SD SE SS SP RET LCH RD LD CNT FL Q).
 Qed.
 
 Lemma check_pc : forall W s j i, pc (jobs s j) <> PAwaitReady ->
@@ -587,7 +587,7 @@ Proof.
   assert (Q : forall c, In c (queue s1) -> In c (queue s) \/ cb_ok s1 c) by (intros c Hc; auto).
   assert (RET : forall r0, pc r = PReturned r0 -> pc ra = PReturned r0) by auto.
   assert (LCH : launches ra = launches r \/ (true = false /\ launches ra = Datatypes.S (launches r) /\ pc r = PWoken ALockIn)) by (left; reflexivity).
-  exact (proj1 (@inv_update_own true W s s1 j ra WF I S EJ L EC EF SD (fun HE => or_introl (SE HE)) SS SP RET LCH RD LD CNT FL Q)).
+  exact (proj1 (@inv_update_own true W s s1 j ra WF I S EJ L EC EF SD SE SS SP RET LCH RD LD CNT FL Q)).
 Qed.
 
 Lemma inv_start_body : forall W s j, wf W = true -> Inv W s -> pc (jobs s j) = PWoken ALockIn ->
@@ -619,7 +619,7 @@ Proof.
       assert (Q : forall c, In c (queue s1) -> In c (queue s) \/ cb_ok s1 c) by (intros c Hc; auto).
       assert (RET : forall r0, pc r = PReturned r0 -> pc ra = PReturned r0) by auto.
       assert (LCH : launches ra = launches r \/ (true = false /\ launches ra = Datatypes.S (launches r) /\ pc r = PWoken ALockIn)) by (left; reflexivity).
-      exact (@inv_update_own true W s s1 j ra WF I S EJ L EC EF SD (fun HE => or_introl (SE HE)) SS SP RET LCH RD LD CNT FL Q). }
+      exact (@inv_update_own true W s s1 j ra WF I S EJ L EC EF SD SE SS SP RET LCH RD LD CNT FL Q). }
     destruct I1x as (I1 & ST1).
     assert (P1 : pc (jobs s1 j) = PWoken ALockIn) by (simpl; rewrite upd_same; exact P).
     assert (S1 : started (pc (jobs s1 j)) = true) by (rewrite P1; auto).
@@ -648,7 +648,7 @@ Proof.
     assert (Q : forall c, In c (queue s') -> In c (queue s2) \/ cb_ok s' c) by (intros c Hc; auto).
     assert (RET : forall r0, pc r2 = PReturned r0 -> pc r' = PReturned r0) by (intros r0 X; rewrite P2 in X; discriminate).
     assert (LCH : launches r' = launches r2 \/ (true = false /\ launches r' = Datatypes.S (launches r2) /\ pc r2 = PWoken ALockIn)) by (left; reflexivity).
-    destruct (@inv_update_own true W s2 s' j r' WF I2 S2 EJ L EC EF SD (fun HE => or_introl (SE HE)) SS SP RET LCH RD LD CNT FL Q) as (I3 & ST3).
+    destruct (@inv_update_own true W s2 s' j r' WF I2 S2 EJ L EC EF SD SE SS SP RET LCH RD LD CNT FL Q) as (I3 & ST3).
     split; auto. apply stab0_stab. eapply stab0_trans; [|exact ST3]. eapply stab0_trans; eauto.
   - (* launch *)
     set (r' := w_pc (w_st (w_launches (w_held r hd) (Datatypes.S (launches (w_held r hd)))) RUNNING) (PExt ALockOutRun)).
@@ -673,7 +673,7 @@ Proof.
     assert (Q : forall c, In c (queue s') -> In c (queue s) \/ cb_ok s' c) by (intros c Hc; auto).
     assert (RET : forall r0, pc r = PReturned r0 -> pc r' = PReturned r0) by (intros r0 X; rewrite P in X; discriminate).
   assert (LCH : launches r' = launches r \/ (false = false /\ launches r' = Datatypes.S (launches r) /\ pc r = PWoken ALockIn)) by (right; repeat split; auto).
-    exact (@inv_update_own false W s s' j r' WF I S EJ L EC EF SD (fun HE => or_introl (SE HE)) SS SP RET LCH RD LD CNT FL Q).
+    exact (@inv_update_own false W s s' j r' WF I S EJ L EC EF SD SE SS SP RET LCH RD LD CNT FL Q).
 Qed.
 
 Lemma inv_submit_pc : forall W s s' j p',
@@ -704,11 +704,11 @@ Proof.
             nth_error (deps W j) i = Some (DJob k) -> st (jobs s k) = DONE).
   { simpl. rewrite NS'. discriminate. }
   assert (CF : forall i, started (pc r') = true -> nth_error (cur r') i = Some DFAIL ->
-            exists k, nth_error (deps W j) i = Some (DJob k) /\ (st (jobs s k) = ERROR \/ adopted W k <> None)).
+            exists k, nth_error (deps W j) i = Some (DJob k) /\ st (jobs s k) = ERROR).
   { simpl. rewrite NS'. discriminate. }
   assert (RD : (st r' = READY \/ in_start (pc r') = true) -> forall k, In (DJob k) (deps W j) -> st (jobs s k) = DONE).
   { simpl. intros [X|X]; [congruence|]. destruct HP as [->|(k & ->)]; discriminate. }
-  assert (FD : fdep r' = true -> exists k, In (DJob k) (deps W j) /\ (st (jobs s k) = ERROR \/ adopted W k <> None)) by (simpl; congruence).
+  assert (FD : fdep r' = true -> exists k, In (DJob k) (deps W j) /\ st (jobs s k) = ERROR) by (simpl; congruence).
   assert (LD : launches r' = 1%nat -> forall k, In (DJob k) (deps W j) -> st (jobs s k) = DONE) by (simpl; congruence).
   assert (CNT : unfinished s' - unfinished s = (if counted (pc r') then 1 else 0) - (if counted (pc r) then 1 else 0)).
   { rewrite EU, P. simpl. clear. destruct (counted p'); lia. }
@@ -720,7 +720,7 @@ Proof.
   { intros c Hc. destruct (EQ c Hc) as [X| ->]; auto. right. simpl. auto. }
   assert (RET : forall r0, pc r = PReturned r0 -> pc r' = PReturned r0) by (intros r0 X; rewrite P in X; discriminate).
   assert (LCH : launches r' = launches r \/ (true = false /\ launches r' = Datatypes.S (launches r) /\ pc r = PWoken ALockIn)) by (left; reflexivity).
-  exact (@inv_update true W s s' j r' WF I Jn EJ L SD (fun HE => or_introl (SE HE)) SS SP RET LCH SW SUB CO CF RD FD LD CNT FL Q).
+  exact (@inv_update true W s s' j r' WF I Jn EJ L SD SE SS SP RET LCH SW SUB CO CF RD FD LD CNT FL Q).
 Qed.
 
 Lemma inv_submit : forall W s j, wf W = true -> Inv W s -> (j < njobs W)%nat -> pc (jobs s j) = PNot ->
